@@ -11,6 +11,8 @@ def run(chk):
     batcher.check_collect(chk, "C05")
     batcher.size_function_contract(chk, "C05")
     batcher.check_consumer(chk, "C05")
+    from . import state_contracts
+    state_contracts.completion_event_contract(chk, "C05")   # a released caller sees the failure if there was one
     bounded_conformance(chk)
 
 
